@@ -12,6 +12,7 @@
    This file holds the GENERAL theorems and does not import `Proofs/NonVac.lean`; the witnesses, findings and non-vacuity examples in the
    constructor-built world of `NonVac` are in `Proofs/C06YW.lean`. -/
 import Heathcliff.Proofs.C02V
+import Heathcliff.Proofs.C02W
 import Heathcliff.Proofs.C05U
 import Heathcliff.Proofs.C04T
 import Mathlib.Data.Nat.Prime.Basic
@@ -599,29 +600,83 @@ theorem ctMultiplyDyadic_refuse_empty (l : Level) (a b : Ct) (hna : a.ntt = true
   simp only []
   rw [if_pos (by omega)]
 
-/-- Y2 + Y4 `multiply` (CKKS product / dyadic step): on valid non-empty NTT-form operands the model ALWAYS succeeds, the result
-    has `n1 + n2 − 1` canonical polynomials, and it is valid IF AND ONLY IF `n1 + n2 − 1 ≤ 16`.  (The Rust code refuses the
-    oversize case through `Ciphertext::resize`; the model does not refuse, it returns an object that `ctValid` rejects.) -/
+/-- Y2 + Y4 `multiply` (CKKS product / dyadic step): on valid non-empty NTT-form operands whose product fits
+    (`n1 + n2 − 1 ≤ 16`) the model succeeds, and the result has `n1 + n2 − 1` canonical polynomials and is VALID.  (Oversize
+    products are refused, as `Ciphertext::resize` does in the code: `ctMultiplyDyadic_valid_or_refused`.) -/
 theorem ctMultiplyDyadic_valid {l : Level} (hq : c02v_QsWF l) {a b : Ct} {s1 s2 s1' s2' : Bool} (ha : ctValid l a s1 s2 = true)
     (hb : ctValid l b s1' s2' = true) (hna : a.ntt = true) (hnb : b.ntt = true) (h0a : a.polys.size ≠ 0)
-    (h0b : b.polys.size ≠ 0) :
+    (h0b : b.polys.size ≠ 0) (h16 : a.polys.size + b.polys.size - 1 ≤ 16) :
     ∃ r, ctMultiplyDyadic l a b = .ok r ∧ r.polys.size = a.polys.size + b.polys.size - 1 ∧ r.ntt = true ∧ r.cf = a.cf ∧
-      c05u_CtCanon l r ∧ (ctValid l r s1 s2 = true ↔ a.polys.size + b.polys.size - 1 ≤ 16) := by
+      c05u_CtCanon l r ∧ ctValid l r s1 s2 = true := by
   have va := c06y_valid_parts ha
   have vb := c06y_valid_parts hb
   have ca := c06y_canon_of_valid va h0a
   have cb := c06y_canon_of_valid vb h0b
-  obtain ⟨r, hr, sr, nr, fr, cr, _, _⟩ := ctMultiplyDyadic_spec hq ca cb hna hnb
+  obtain ⟨r, hr, sr, nr, fr, cr, _, _⟩ := ctMultiplyDyadic_spec hq ca cb hna hnb h16
   have crr : c05u_CtCanon l r := fun k hk => cr k (by rw [← sr]; exact hk)
-  refine ⟨r, hr, sr, nr, fr, crr, fun hv => ?_, fun h16 => ?_⟩
-  · have := (c06y_valid_parts hv).size
-    omega
-  · have := ca.two_le; have := cb.two_le
-    exact c06y_valid_mk (Or.inr (by omega)) crr va.scale (by rw [fr]; exact va.cf)
+  refine ⟨r, hr, sr, nr, fr, crr, ?_⟩
+  have := ca.two_le; have := cb.two_le
+  exact c06y_valid_mk (Or.inr (by omega)) crr va.scale (by rw [fr]; exact va.cf)
+
+/-- Y4 refusal (size), as in the code (`Ciphertext::resize`: "[Invalid argument] Size invalid."): a product of more than 16
+    polynomials is refused, whatever the operands are -/
+theorem ctMultiplyDyadic_refuse_oversize (l : Level) (a b : Ct) (h : 16 < a.polys.size + b.polys.size - 1) :
+    ctMultiplyDyadic l a b = .error .refused :=
+  ctMultiplyDyadic_refuse_size l a b ((ctResizeRefuses_eq_true_iff _).mpr (Or.inr h))
+
+/-- Y2 + Y4, the complete case analysis of `multiply` (CKKS product / dyadic step) on VALID operands: the model either returns a
+    VALID result of `n1 + n2 − 1` polynomials or REFUSES (error code `refused`, never another error); it refuses exactly when an
+    operand is not in NTT form, an operand is empty, or the product would have more than 16 polynomials.  In particular, for
+    non-empty NTT-form valid operands: refused IFF `n1 + n2 − 1 > 16`. -/
+theorem ctMultiplyDyadic_valid_or_refused {l : Level} (hq : c02v_QsWF l) {a b : Ct} {s1 s2 s1' s2' : Bool}
+    (ha : ctValid l a s1 s2 = true) (hb : ctValid l b s1' s2' = true) :
+    ((∃ r, ctMultiplyDyadic l a b = .ok r ∧ ctValid l r s1 s2 = true ∧ r.polys.size = a.polys.size + b.polys.size - 1) ∨
+      ctMultiplyDyadic l a b = .error .refused) ∧
+    (ctMultiplyDyadic l a b = .error .refused ↔
+      (a.ntt = false ∨ b.ntt = false ∨ a.polys.size = 0 ∨ b.polys.size = 0 ∨ 16 < a.polys.size + b.polys.size - 1)) := by
+  by_cases hna : a.ntt = true
+  swap
+  · have h := ctMultiplyDyadic_refuse l a b (Or.inl (by simpa using hna))
+    exact ⟨Or.inr h, fun _ => Or.inl (by simpa using hna), fun _ => h⟩
+  by_cases hnb : b.ntt = true
+  swap
+  · have h := ctMultiplyDyadic_refuse l a b (Or.inr (by simpa using hnb))
+    exact ⟨Or.inr h, fun _ => Or.inr (Or.inl (by simpa using hnb)), fun _ => h⟩
+  by_cases h0 : a.polys.size = 0 ∨ b.polys.size = 0
+  · have h := ctMultiplyDyadic_refuse_empty l a b hna hnb h0
+    exact ⟨Or.inr h, fun _ => by omega, fun _ => h⟩
+  by_cases h16 : 16 < a.polys.size + b.polys.size - 1
+  · have h := ctMultiplyDyadic_refuse_oversize l a b h16
+    exact ⟨Or.inr h, fun _ => by omega, fun _ => h⟩
+  obtain ⟨r, hr, sr, _, _, _, hv⟩ := ctMultiplyDyadic_valid hq ha hb hna hnb (by omega) (by omega) (by omega)
+  refine ⟨Or.inl ⟨r, hr, hv, sr⟩, fun h => ?_, fun h => ?_⟩
+  · rw [hr] at h; cases h
+  · rcases h with h | h | h | h | h
+    · rw [hna] at h; cases h
+    · rw [hnb] at h; cases h
+    · omega
+    · omega
+    · omega
+
+/-- for non-empty NTT-form valid operands: refused IFF the product would have more than 16 polynomials -/
+theorem ctMultiplyDyadic_refused_iff {l : Level} (hq : c02v_QsWF l) {a b : Ct} {s1 s2 s1' s2' : Bool}
+    (ha : ctValid l a s1 s2 = true) (hb : ctValid l b s1' s2' = true) (hna : a.ntt = true) (hnb : b.ntt = true)
+    (h0a : a.polys.size ≠ 0) (h0b : b.polys.size ≠ 0) :
+    ctMultiplyDyadic l a b = .error .refused ↔ 16 < a.polys.size + b.polys.size - 1 := by
+  rw [(ctMultiplyDyadic_valid_or_refused hq ha hb).2]
+  constructor
+  · rintro (h | h | h | h | h)
+    · rw [hna] at h; cases h
+    · rw [hnb] at h; cases h
+    · exact absurd h h0a
+    · exact absurd h h0b
+    · exact h
+  · exact fun h => Or.inr (Or.inr (Or.inr (Or.inr h)))
 
 theorem ctMultiplyDyadic_preserves_valid {l : Level} (hq : c02v_QsWF l) {a b r : Ct} {s1 s2 s1' s2' : Bool}
-    (ha : ctValid l a s1 s2 = true) (hb : ctValid l b s1' s2' = true) (hr : ctMultiplyDyadic l a b = .ok r)
-    (h16 : a.polys.size + b.polys.size - 1 ≤ 16) : ctValid l r s1 s2 = true := by
+    (ha : ctValid l a s1 s2 = true) (hb : ctValid l b s1' s2' = true) (hr : ctMultiplyDyadic l a b = .ok r) :
+    ctValid l r s1 s2 = true := by
+  have h16 := ctMultiplyDyadic_ok_le16 hr
   have hna : a.ntt = true := by
     by_contra h; rw [ctMultiplyDyadic_refuse l a b (Or.inl (by simpa using h))] at hr; cases hr
   have hnb : b.ntt = true := by
@@ -629,13 +684,14 @@ theorem ctMultiplyDyadic_preserves_valid {l : Level} (hq : c02v_QsWF l) {a b r :
   have h0 : a.polys.size ≠ 0 ∧ b.polys.size ≠ 0 := by
     by_contra h
     rw [ctMultiplyDyadic_refuse_empty l a b hna hnb (by omega)] at hr; cases hr
-  obtain ⟨r', hr', _, _, _, _, hv⟩ := ctMultiplyDyadic_valid hq ha hb hna hnb h0.1 h0.2
-  rw [hr] at hr'; cases hr'; exact hv.mpr h16
+  obtain ⟨r', hr', _, _, _, _, hv⟩ := ctMultiplyDyadic_valid hq ha hb hna hnb h0.1 h0.2 h16
+  rw [hr] at hr'; cases hr'; exact hv
 
 /-- Y4: the size law of the product, from `.ok` alone (no validity needed) -/
 theorem ctMultiplyDyadic_size {l : Level} {a b r : Ct} (hr : ctMultiplyDyadic l a b = .ok r) :
     r.polys.size = a.polys.size + b.polys.size - 1 ∧ 1 ≤ a.polys.size ∧ 1 ≤ b.polys.size ∧ a.ntt = true ∧ b.ntt = true ∧
-      r.ntt = true ∧ r.cf = a.cf := by
+      r.ntt = true ∧ r.cf = a.cf ∧ 2 ≤ r.polys.size ∧ r.polys.size ≤ 16 := by
+  have hszok := (ctResizeRefuses_eq_false_iff _).mp (ctMultiplyDyadic_ok_size hr)
   have hna : a.ntt = true := by
     by_contra h; rw [ctMultiplyDyadic_refuse l a b (Or.inl (by simpa using h))] at hr; cases hr
   have hnb : b.ntt = true := by
@@ -646,7 +702,7 @@ theorem ctMultiplyDyadic_size {l : Level} {a b r : Ct} (hr : ctMultiplyDyadic l 
   unfold ctMultiplyDyadic at hr
   rw [if_neg (by simp [hna, hnb])] at hr
   simp only [] at hr
-  rw [if_neg (by omega)] at hr
+  rw [if_neg (by omega), if_neg (by rw [Bool.not_eq_true, ctResizeRefuses_eq_false_iff]; exact hszok)] at hr
   simp only [bind, Except.bind] at hr
   split at hr
   · cases hr
@@ -655,31 +711,37 @@ theorem ctMultiplyDyadic_size {l : Level} {a b r : Ct} (hr : ctMultiplyDyadic l 
     subst hr
     have hlen := c06y_mapM_length _ _ _ hps
     simp only [List.length_range] at hlen
-    exact ⟨by simp [hlen], by omega, by omega, hna, hnb, hna, rfl⟩
+    exact ⟨by simp [hlen], by omega, by omega, hna, hnb, hna, rfl, by simp [hlen]; omega, by simp [hlen]; omega⟩
 
-/-- Y2 `bgv_multiply`: on valid non-empty NTT-form BGV operands the model succeeds with correction factor `cf_a·cf_b mod t`;
-    the result is valid IF AND ONLY IF the size fits and that product is non-zero modulo t -/
+/-- Y4 refusal (size) for `bgv_multiply` -/
+theorem bgvMultiply_refuse_oversize (l : Level) (a b : Ct) (h : 16 < a.polys.size + b.polys.size - 1) :
+    bgvMultiply l a b = .error .refused := by
+  unfold bgvMultiply
+  rw [ctMultiplyDyadic_refuse_oversize l a b h]
+  rfl
+
+/-- Y2 `bgv_multiply`: on valid non-empty NTT-form BGV operands whose product fits (`n1 + n2 − 1 ≤ 16`; otherwise refused:
+    `bgvMultiply_refuse_oversize`) the model succeeds with correction factor `cf_a·cf_b mod t`; the result is valid IF AND ONLY IF
+    that product is non-zero modulo t -/
 theorem bgvMultiply_valid_iff {l : Level} (hq : c02v_QsWF l) (ht : l.t.WF) (hs : l.scheme = .bgv) {a b : Ct}
     {s1 s2 s1' s2' : Bool} (ha : ctValid l a s1 s2 = true) (hb : ctValid l b s1' s2' = true) (hna : a.ntt = true)
-    (hnb : b.ntt = true) (h0a : a.polys.size ≠ 0) (h0b : b.polys.size ≠ 0) :
+    (hnb : b.ntt = true) (h0a : a.polys.size ≠ 0) (h0b : b.polys.size ≠ 0) (h16 : a.polys.size + b.polys.size - 1 ≤ 16) :
     ∃ r, bgvMultiply l a b = .ok r ∧ r.polys.size = a.polys.size + b.polys.size - 1 ∧ r.ntt = true ∧
       r.cf = (a.cf * b.cf) % l.t.value ∧
-      (ctValid l r s1 s2 = true ↔ a.polys.size + b.polys.size - 1 ≤ 16 ∧ (a.cf * b.cf) % l.t.value ≠ 0) := by
+      (ctValid l r s1 s2 = true ↔ (a.cf * b.cf) % l.t.value ≠ 0) := by
   have va := c06y_valid_parts ha
   have vb := c06y_valid_parts hb
-  obtain ⟨c, hc, sc, nc, fc, cc, hv⟩ := ctMultiplyDyadic_valid hq ha hb hna hnb h0a h0b
+  obtain ⟨c, hc, sc, nc, fc, cc, hv⟩ := ctMultiplyDyadic_valid hq ha hb hna hnb h0a h0b h16
   have fa := (c06y_cfOk_bgv hs _).mp va.cf
   have fb := (c06y_cfOk_bgv hs _).mp vb.cf
   have htlt := ht.lt
   have h2 := ht.two_le
   refine ⟨_, bgvMultiply_spec ht hc (by omega) (by omega), sc, nc, rfl, fun hr => ?_, fun hr => ?_⟩
   · have v := c06y_valid_parts hr
-    have hsz : c.polys.size = 0 ∨ (2 ≤ c.polys.size ∧ c.polys.size ≤ 16) := v.size
     have hcf : (a.cf * b.cf) % l.t.value ≠ 0 ∧ (a.cf * b.cf) % l.t.value < l.t.value := (c06y_cfOk_bgv hs _).mp v.cf
-    have : c.polys.size ≠ 0 := by rw [sc]; have := va.size; have := vb.size; omega
-    exact ⟨by rw [← sc]; exact (by omega : c.polys.size ≤ 16), hcf.1⟩
-  · have vc := c06y_valid_parts (hv.mpr hr.1)
-    exact c06y_valid_mk vc.size cc va.scale ((c06y_cfOk_bgv hs _).mpr ⟨hr.2, Nat.mod_lt _ (by omega)⟩)
+    exact hcf.1
+  · have vc := c06y_valid_parts hv
+    exact c06y_valid_mk vc.size cc va.scale ((c06y_cfOk_bgv hs _).mpr ⟨hr, Nat.mod_lt _ (by omega)⟩)
 
 /-- Y2 `bgv_multiply`, unit correction factors: the result is valid -/
 theorem bgvMultiply_valid {l : Level} (hq : c02v_QsWF l) (ht : l.t.WF) (hs : l.scheme = .bgv) {a b : Ct}
@@ -688,17 +750,20 @@ theorem bgvMultiply_valid {l : Level} (hq : c02v_QsWF l) (ht : l.t.WF) (hs : l.s
     (c1 : Nat.Coprime a.cf l.t.value) (c2 : Nat.Coprime b.cf l.t.value) :
     ∃ r, bgvMultiply l a b = .ok r ∧ ctValid l r s1 s2 = true ∧ r.polys.size = a.polys.size + b.polys.size - 1 ∧
       r.ntt = true ∧ r.cf = (a.cf * b.cf) % l.t.value ∧ Nat.Coprime r.cf l.t.value := by
-  obtain ⟨r, hr, sr, nr, fr, hv⟩ := bgvMultiply_valid_iff hq ht hs ha hb hna hnb h0a h0b
+  obtain ⟨r, hr, sr, nr, fr, hv⟩ := bgvMultiply_valid_iff hq ht hs ha hb hna hnb h0a h0b h16
   have hcop : Nat.Coprime ((a.cf * b.cf) % l.t.value) l.t.value := by
     unfold Nat.Coprime
     rw [← Nat.gcd_rec, Nat.gcd_comm]
     exact Nat.Coprime.mul_left c1 c2
-  exact ⟨r, hr, hv.mpr ⟨h16, c06y_ne_zero_of_coprime ht.two_le hcop⟩, sr, nr, fr, by rw [fr]; exact hcop⟩
+  exact ⟨r, hr, hv.mpr (c06y_ne_zero_of_coprime ht.two_le hcop), sr, nr, fr, by rw [fr]; exact hcop⟩
 
 theorem bgvMultiply_preserves_valid {l : Level} (hq : c02v_QsWF l) (ht : l.t.WF) (hs : l.scheme = .bgv) {a b r : Ct}
     {s1 s2 s1' s2' : Bool} (ha : ctValid l a s1 s2 = true) (hb : ctValid l b s1' s2' = true)
-    (hr : bgvMultiply l a b = .ok r) (h16 : a.polys.size + b.polys.size - 1 ≤ 16)
+    (hr : bgvMultiply l a b = .ok r)
     (c1 : Nat.Coprime a.cf l.t.value) (c2 : Nat.Coprime b.cf l.t.value) : ctValid l r s1 s2 = true := by
+  have h16 : a.polys.size + b.polys.size - 1 ≤ 16 := by
+    by_contra h
+    rw [bgvMultiply_refuse_oversize l a b (by omega)] at hr; cases hr
   have hna : a.ntt = true := by
     by_contra h; rw [bgvMultiply_refuse l a b (Or.inl (by simpa using h))] at hr; cases hr
   have hnb : b.ntt = true := by
@@ -761,6 +826,7 @@ theorem bgvMultiply_valid_needs_unit :
       bgvMultiply c02v_exLevel4 a b = .ok r ∧ r.cf = 0 ∧ ctValid c02v_exLevel4 r true false = false := by
   have ha := c06y_exCt_valid 2 (by decide) (by decide)
   obtain ⟨r, hr, _, _, fr, hv⟩ := bgvMultiply_valid_iff c02v_exLevel4_qsWF c02v_exT4_wf rfl ha ha rfl rfl (by decide) (by decide)
+    (by decide)
   have f0 : r.cf = 0 := fr
   refine ⟨_, _, r, ha, ha, hr, f0, ?_⟩
   cases h : ctValid c02v_exLevel4 r true false
@@ -1110,7 +1176,7 @@ theorem applyGalois_valid {kl : KeyLevel} {l : Level} (hl : l.WF) (hk : c06y_Key
   rw [if_neg (by omega), if_neg (by omega), h0, h1]
   exact hr
 
-/-! ### `bfv_multiply`: metadata and size (the residues of the BEHZ pipeline are not covered: no end-to-end theorem for it exists) -/
+/-! ### `bfv_multiply`: metadata and size from `.ok` alone (the data part is `bfvMultiply_valid` below, through C02W) -/
 
 /-- Y4 for `bfv_multiply`: whenever the model succeeds, both operands are non-empty and in coefficient form, the result has
     `n1 + n2 − 1` polynomials, coefficient form and the correction factor of the first operand -/
@@ -1121,8 +1187,9 @@ theorem bfvMultiply_shape_of_ok {l : Level} {bsk : Array NTTTables} {a b r : Ct}
     by_contra h
     rw [c06y_bfvMultiply_refuse_ntt l bsk a b (by cases ha : a.ntt <;> cases hb : b.ntt <;> simp_all)] at hr
     cases hr
+  have hszok := bfvMultiply_ok_size hr
   unfold bfvMultiply at hr
-  rw [if_neg (by simp [hn.1, hn.2])] at hr
+  rw [if_neg (by simp [hn.1, hn.2]), if_neg (by simp [hszok])] at hr
   simp only [bind, Except.bind] at hr
   split at hr
   · cases hr
@@ -1143,19 +1210,19 @@ theorem bfvMultiply_shape_of_ok {l : Level} {bsk : Array NTTTables} {a b r : Ct}
   simp only [List.length_range] at hlen
   exact ⟨by simp [hlen], by omega, by omega, hn.1, hn.2, hn.1, rfl⟩
 
-/-- Y2 for `bfv_multiply`, conditional on the data part: the result of a successful product of a valid first operand is valid iff the
-    size fits and its polynomials are canonical (size, scale and correction factor are handled here; canonicity of the output of
-    `fastbconvSk` is the part that is NOT proved) -/
+/-- Y2 for `bfv_multiply` at ANY level (no `MulOK`): the result of a successful product of a valid first operand is valid iff its
+    polynomials are canonical (the size fits because the model refuses otherwise; scale and correction factor are handled here;
+    canonicity of the output of `fastbconvSk` at a `MulOK` level is `bfvMultiply_valid`) -/
 theorem bfvMultiply_valid_iff_canon {l : Level} {bsk : Array NTTTables} {a b r : Ct} {s1 s2 : Bool}
     (ha : ctValid l a s1 s2 = true) (hr : bfvMultiply l bsk a b = .ok r) :
-    ctValid l r s1 s2 = true ↔ a.polys.size + b.polys.size - 1 ≤ 16 ∧ c05u_CtCanon l r := by
+    ctValid l r s1 s2 = true ↔ c05u_CtCanon l r := by
   obtain ⟨sr, h1, h2, _, _, _, fr⟩ := bfvMultiply_shape_of_ok hr
+  have hszok := (ctResizeRefuses_eq_false_iff _).mp (bfvMultiply_ok_size hr)
   have v := c06y_valid_parts ha
   constructor
   · intro hv
-    have v' := c06y_valid_parts hv
-    exact ⟨by have := v'.size; have := v.size; omega, v'.canon⟩
-  · rintro ⟨h16, hc⟩
+    exact (c06y_valid_parts hv).canon
+  · intro hc
     exact c06y_valid_mk (by have := v.size; omega) hc v.scale (by rw [fr]; exact v.cf)
 
 /-! ### "accepted by any later operation": a composed pipeline -/
@@ -1172,9 +1239,8 @@ theorem multiply_relinearize_drop_valid {kl : KeyLevel} {l l' : Level} (hq : c02
     ∃ c r d, ctMultiplyDyadic l a b = .ok c ∧ ctValid l c s1 s2 = true ∧ c.polys.size = 3 ∧
       relinearize kl l.scheme l.size keys 2 c = .ok r ∧ ctValid l r s1 s2 = true ∧ r.polys.size = 2 ∧
       modSwitchDropNext l r = .ok d ∧ ctValid l' d s1 s2 = true ∧ d.polys.size = 2 ∧ d.cf = a.cf := by
-  obtain ⟨c, hc, sc, nc, fc, _, hvc⟩ := ctMultiplyDyadic_valid hq ha hb' hna hnb (by omega) (by omega)
-  rw [sa, sb] at sc hvc
-  have vc := hvc.mpr (by decide)
+  obtain ⟨c, hc, sc, nc, fc, _, vc⟩ := ctMultiplyDyadic_valid hq ha hb' hna hnb (by omega) (by omega) (by rw [sa, sb]; decide)
+  rw [sa, sb] at sc
   obtain ⟨r, hr, vr, sr, nr, fr⟩ := relinearize_valid hk ho hb keys 2 c vc (by omega) (by omega)
     (fun _ => ⟨fun _ => hs, fun _ => nc⟩)
     (fun m h1 h2' => by
@@ -1183,5 +1249,90 @@ theorem multiply_relinearize_drop_valid {kl : KeyLevel} {l l' : Level} (hq : c02
       exact ⟨key, hkey, hkok⟩)
   obtain ⟨d, hd, vd, sd, _, fd⟩ := modSwitchDropNext_valid hn h2 vr (fun _ => by rw [nr, nc])
   exact ⟨c, r, d, hc, vc, sc, hr, vr, sr, hd, vd, by rw [sd, sr], by rw [fd, fr, fc]⟩
+
+/-! ### `bgv_multiply` and `bfv_multiply`: valid operands give a valid result or a refusal -/
+
+/-- Y2 + Y4 for `bgv_multiply` with a PRIME plain modulus, the complete case analysis on VALID operands: a VALID result or the
+    error `refused`; refused exactly when an operand is not in NTT form, an operand is empty, or the product would have more than 16
+    polynomials (so, for non-empty NTT-form valid operands: refused IFF `n1 + n2 − 1 > 16`).  For composite t validity of the result
+    additionally needs unit correction factors (`bgvMultiply_valid_needs_unit`). -/
+theorem bgvMultiply_valid_or_refused {l : Level} (hq : c02v_QsWF l) (ht : l.t.WF) (hp : Nat.Prime l.t.value) (hs : l.scheme = .bgv)
+    {a b : Ct} {s1 s2 s1' s2' : Bool} (ha : ctValid l a s1 s2 = true) (hb : ctValid l b s1' s2' = true) :
+    ((∃ r, bgvMultiply l a b = .ok r ∧ ctValid l r s1 s2 = true ∧ r.polys.size = a.polys.size + b.polys.size - 1) ∨
+      bgvMultiply l a b = .error .refused) ∧
+    (bgvMultiply l a b = .error .refused ↔
+      (a.ntt = false ∨ b.ntt = false ∨ a.polys.size = 0 ∨ b.polys.size = 0 ∨ 16 < a.polys.size + b.polys.size - 1)) := by
+  by_cases hna : a.ntt = true
+  swap
+  · have h := bgvMultiply_refuse l a b (Or.inl (by simpa using hna))
+    exact ⟨Or.inr h, fun _ => Or.inl (by simpa using hna), fun _ => h⟩
+  by_cases hnb : b.ntt = true
+  swap
+  · have h := bgvMultiply_refuse l a b (Or.inr (by simpa using hnb))
+    exact ⟨Or.inr h, fun _ => Or.inr (Or.inl (by simpa using hnb)), fun _ => h⟩
+  by_cases h0 : a.polys.size = 0 ∨ b.polys.size = 0
+  · have h : bgvMultiply l a b = .error .refused := by
+      unfold bgvMultiply
+      rw [ctMultiplyDyadic_refuse_empty l a b hna hnb h0]; rfl
+    exact ⟨Or.inr h, fun _ => by omega, fun _ => h⟩
+  by_cases h16 : 16 < a.polys.size + b.polys.size - 1
+  · have h := bgvMultiply_refuse_oversize l a b h16
+    exact ⟨Or.inr h, fun _ => by omega, fun _ => h⟩
+  obtain ⟨r, hr, hv, sr, _⟩ := bgvMultiply_valid_prime hq ht hp hs ha hb hna hnb (by omega) (by omega) (by omega)
+  refine ⟨Or.inl ⟨r, hr, hv, sr⟩, fun h => ?_, fun h => ?_⟩
+  · rw [hr] at h; cases h
+  · rcases h with h | h | h | h | h
+    · rw [hna] at h; cases h
+    · rw [hnb] at h; cases h
+    · omega
+    · omega
+    · omega
+
+/-- Y2 for `bfv_multiply` (BEHZ), now with the data part (C02W): on valid non-empty coefficient-form operands at a level satisfying
+    `MulOK` (derived from the constructors: `c02w_mulOK_of_new`) whose product fits, the model succeeds and the result is VALID -/
+theorem bfvMultiply_valid {l : Level} {T : Array NTTTables} (hm : MulOK l T) {a b : Ct} {s1 s2 s1' s2' : Bool}
+    (ha : ctValid l a s1 s2 = true) (hb : ctValid l b s1' s2' = true) (hna : a.ntt = false) (hnb : b.ntt = false)
+    (h0a : a.polys.size ≠ 0) (h0b : b.polys.size ≠ 0) (h16 : a.polys.size + b.polys.size - 1 ≤ 16) :
+    ∃ r, bfvMultiply l T a b = .ok r ∧ ctValid l r s1 s2 = true ∧ r.polys.size = a.polys.size + b.polys.size - 1 ∧
+      r.ntt = false := by
+  have va := c06y_valid_parts ha
+  have vb := c06y_valid_parts hb
+  obtain ⟨r, hr, cr, sr, nr⟩ := bfvMultiply_canon hm (c06y_canon_of_valid va h0a) (c06y_canon_of_valid vb h0b) hna hnb h16
+  exact ⟨r, hr, ctValid_of_CtCanon cr va.scale, sr, nr⟩
+
+/-- Y2 + Y4 for `bfv_multiply`, the complete case analysis on VALID operands at a `MulOK` level: a VALID result or the error
+    `refused` (never another error: no overflow / out-of-range branch of the BEHZ pipeline is reachable); refused exactly when an
+    operand is in NTT form, an operand is empty, or the product would have more than 16 polynomials -/
+theorem bfvMultiply_valid_or_refused {l : Level} {T : Array NTTTables} (hm : MulOK l T) {a b : Ct} {s1 s2 s1' s2' : Bool}
+    (ha : ctValid l a s1 s2 = true) (hb : ctValid l b s1' s2' = true) :
+    ((∃ r, bfvMultiply l T a b = .ok r ∧ ctValid l r s1 s2 = true ∧ r.polys.size = a.polys.size + b.polys.size - 1) ∨
+      bfvMultiply l T a b = .error .refused) ∧
+    (bfvMultiply l T a b = .error .refused ↔
+      (a.ntt = true ∨ b.ntt = true ∨ a.polys.size = 0 ∨ b.polys.size = 0 ∨ 16 < a.polys.size + b.polys.size - 1)) := by
+  have va := c06y_valid_parts ha
+  have vb := c06y_valid_parts hb
+  by_cases hna : a.ntt = true
+  · have h := bfvMultiply_refuse_ntt l T a b (Or.inl hna)
+    exact ⟨Or.inr h, fun _ => Or.inl hna, fun _ => h⟩
+  by_cases hnb : b.ntt = true
+  · have h := bfvMultiply_refuse_ntt l T a b (Or.inr hnb)
+    exact ⟨Or.inr h, fun _ => Or.inr (Or.inl hnb), fun _ => h⟩
+  have hna' : a.ntt = false := by simpa using hna
+  have hnb' : b.ntt = false := by simpa using hnb
+  by_cases h0 : a.polys.size = 0 ∨ b.polys.size = 0
+  · have h := bfvMultiply_refuse_empty hm va.canon vb.canon hna' hnb' (by omega)
+    exact ⟨Or.inr h, fun _ => by omega, fun _ => h⟩
+  by_cases h16 : 16 < a.polys.size + b.polys.size - 1
+  · have h := bfvMultiply_refuse_size l T a b ((ctResizeRefuses_eq_true_iff _).mpr (Or.inr h16))
+    exact ⟨Or.inr h, fun _ => by omega, fun _ => h⟩
+  obtain ⟨r, hr, hv, sr, _⟩ := bfvMultiply_valid hm ha hb hna' hnb' (by omega) (by omega) (by omega)
+  refine ⟨Or.inl ⟨r, hr, hv, sr⟩, fun h => ?_, fun h => ?_⟩
+  · rw [hr] at h; cases h
+  · rcases h with h | h | h | h | h
+    · exact absurd h hna
+    · exact absurd h hnb
+    · omega
+    · omega
+    · omega
 
 end HC
